@@ -56,6 +56,10 @@ impl Packer {
         if &fimg.file_system != super::FS_NAME {
             return Err(Box::new(Error::VolumeMismatch));
         }
+        // a file image from outside can lack the type byte that decides how to unpack it
+        if fimg.fs_type.is_empty() {
+            return Err(Box::new(Error::FileTypeMismatch));
+        }
         Ok(())
     }
 }
@@ -70,7 +74,7 @@ impl Packing for Packer {
         }
     }
     fn get_load_address(&self,fimg: &FileImage) -> u16 {
-        match FileType::from_u8(fimg.fs_type[0] & 0x7f) {
+        match fimg.fs_type.first().and_then(|typ| FileType::from_u8(typ & 0x7f)) {
             Some(FileType::Integer) => 0,
             Some(FileType::Applesoft) => {
                 match fimg.chunks.get(&0) {
